@@ -420,7 +420,6 @@ Hypothesis Hmk : sound_mk mkf.
 (* ---------- reverse_ite_cases ---------- *)
 
 (* the values of the cases whose condition holds *)
-Definition holds (rho : env) (c : expr) : bool := match eval rho c with Some (VBool true) => true | _ => false end.
 Fixpoint sel (rho : env) (q : list (expr * expr)) : list (option value) :=
   match q with
   | [] => []
